@@ -11,6 +11,7 @@ import (
 	"io"
 	mrand "math/rand/v2"
 	"regexp"
+	"runtime"
 	"strings"
 	"sync"
 	"testing"
@@ -106,6 +107,40 @@ func c10CheckConn(r *vk.Reporter, p *vk.Pipe, serverName string) (kind, detail s
 func TestVerif_C10(t *testing.T) {
 	r := vk.Open()
 	defer r.Close()
+	// forced overlap of two direct-mode handshakes inside the server (see authWindow)
+	for i := 0; i < r.Pick(12, 100); i++ {
+		id := fmt.Sprintf("auth-window-%d", i)
+		if !r.Mine(id) {
+			continue
+		}
+		r.Case(id, nil)
+		var vkind, vdet string
+		prev := runtime.GOMAXPROCS(1)
+		p, leftover := vk.InBubble(t, func() {
+			res, _ := authWindow(t, "direct", r.Rand("c10w", i))
+			for _, c := range res {
+				if c.pipe == nil {
+					continue
+				}
+				if k, d := c10CheckConn(r, c.pipe, "www.example.com"); k != "" {
+					vkind, vdet = k, d+" (two handshakes overlapping inside the server, forced at disp.userResolved)"
+					return
+				}
+				r.Count("connections_checked", 1)
+			}
+		})
+		runtime.GOMAXPROCS(prev)
+		if p != nil && !leftover && vkind == "" {
+			vkind, vdet = "panic", fmt.Sprint(p)
+		}
+		r.Count("evaluations", 1)
+		r.Distinct("cases", vk.Hash64("aw", i))
+		if vkind != "" {
+			r.Violation(id, "C10:"+vkind, vdet, nil)
+		} else {
+			r.Pass(id)
+		}
+	}
 	n := r.Pick(64, 1200)
 	for i := 0; i < n; i++ {
 		id := fmt.Sprintf("session-%d", i)
